@@ -97,8 +97,16 @@ def run(ck, ic=False, tag="C07"):
     for _ in range(nl):
         k = rng.choice([2, 2, 3, 4])
         members = [rng.choice(pool) for _ in range(k)]
-        cases.append({"k": "rule", "id": ck.new_id(), "rule": rule_text({"A": {"f": members}, "condition": "A"}), "docs": ddocs, "sw": [0],
+        cases.append({"k": "rule", "id": ck.new_id(), "rule": rule_text({"A": {"f": members}, "condition": "A"}), "docs": ddocs, "sw": [0, 15],
                       "_pats": members})
+        # the same members written as separate entries / separate identifiers: the OPTIMISER batches them
+        # (shake merges the searches of one field into automata and regex sets)
+        if rng.random() < 0.5:
+            det = {"A": [{"f": m} for m in members], "condition": "A"}
+        else:
+            det = {"X%d" % i: {"f": m} for i, m in enumerate(members)}
+            det["condition"] = " or ".join("X%d" % i for i in range(len(members)))
+        cases.append({"k": "rule", "id": ck.new_id(), "rule": rule_text(det), "docs": ddocs, "sw": [0, 15], "_pats": members})
     # random longer strings: multi-byte characters, needle longer than haystack, overlapping and repeated needles
     longs = ["abababab", "aaaa", "aaab", "baaa", "xabcabcx", "ÄäÄä", "𝟙𝟙a𝟙", "a" * 40, "ab" * 17 + "a"]
     long_pats = ["*aba*", "aba*", "*aba", "*aa*", "i*ABAB*", "*abab*", "*bab", "abababab", "abababababab*", "*ä*", "i*Ä*", "*𝟙a*", "?(ab)+a$", "?^a{40}$"]
@@ -108,7 +116,9 @@ def run(ck, ic=False, tag="C07"):
                       "_pats": [p], "_hays": longs})
     for _ in range(60):
         members = [rng.choice(long_pats) for _ in range(rng.choice([2, 3, 4]))]
-        cases.append({"k": "rule", "id": ck.new_id(), "rule": rule_text({"A": {"f": members}, "condition": "A"}), "docs": ldocs, "sw": [0],
+        cases.append({"k": "rule", "id": ck.new_id(), "rule": rule_text({"A": {"f": members}, "condition": "A"}), "docs": ldocs, "sw": [0, 15],
+                      "_pats": members, "_hays": longs})
+        cases.append({"k": "rule", "id": ck.new_id(), "rule": rule_text({"A": [{"f": m} for m in members], "condition": "A"}), "docs": ldocs, "sw": [0, 15],
                       "_pats": members, "_hays": longs})
     send = rulebase.wire(cases)
     feats = ("ignore_case",) if ic else ()
@@ -126,11 +136,16 @@ def run(ck, ic=False, tag="C07"):
         if a["load"] != "ok":
             ck.count("load:" + str(a["load"]))
             continue
-        res = a["res"].get(0, "")
         if any(documented(m, "", ic) is None for m in members):
             ck.count("numeric_or_skipped")
             continue
-        for h, got in zip(hs, res):
+        for swn in c["sw"]:
+          res = a["res"].get(swn, "")
+          if len(res) != len(hs):
+            res = "?" * len(hs)
+          if swn:
+            ck.count("optimised_form_compared")
+          for h, got in zip(hs, res):
             evals += 1
             if h is None:
                 exp = "m"
@@ -145,7 +160,8 @@ def run(ck, ic=False, tag="C07"):
                     ck.violation({"property": "C07", "kind": "direct",
                                   "what": "a string predicate (single or list) differs from the documented relation",
                                   "patterns": members, "haystack": h, "expected": exp, "crate": got, "rule": c["rule"], "ignore_case_build": ic,
-                                  "replay_case": {"k": "rule", "id": 1, "rule": c["rule"], "docs": [D({"f": h} if h is not None else {})], "sw": [0]}})
+                                  "switch_set": swn,
+                                  "replay_case": {"k": "rule", "id": 1, "rule": c["rule"], "docs": [D({"f": h} if h is not None else {})], "sw": [swn]}})
                 direct_failed.add(c["id"])
     ck.coverage["evaluations"] = evals
     ck.coverage["distinct_nontrivial"] = len(nontrivial)
